@@ -135,7 +135,7 @@ SET_METHODS = {"intersection": ast.BitAnd, "union": ast.BitOr, "difference": ast
 
 def normalise(tree):
     """Spellings with one meaning, rewritten in place to the one the analyses read (positions kept):
-    `x.sum(0)` / `np.sum(x, 0)` -> `axis=0`; `np.copy(X)` -> `X.copy()`; `s.intersection(t)` / `.union` / `.difference`
+    `x.sum(0)` / `np.sum(x, 0)` -> `axis=0`; `np.copy(X)` -> `X.copy()`; `np.zeros([a, b])` -> `np.zeros((a, b))`; `s.intersection(t)` / `.union` / `.difference`
     -> `s & t` / `|` / `-` when s is a call of a node-set helper or set(...)."""
     nps = {(al.asname or al.name) for n in tree.body if isinstance(n, ast.Import) for al in n.names if al.name == "numpy"}
 
@@ -154,6 +154,10 @@ def normalise(tree):
                 elif not is_np and len(node.args) == 1 and axis_const(node.args[0]):
                     node.keywords = [ast.keyword(arg="axis", value=node.args[0])]
                     node.args = []
+                return node
+            if is_np and f.attr in ("zeros", "ones", "empty", "full") and node.args and isinstance(node.args[0], ast.List) and \
+                    not any(isinstance(e, ast.Starred) for e in node.args[0].elts):
+                node.args[0] = ast.copy_location(ast.Tuple(elts=node.args[0].elts, ctx=ast.Load()), node.args[0])     # a shape given as a list
                 return node
             if is_np and f.attr == "copy" and len(node.args) == 1 and not node.keywords and not isinstance(node.args[0], ast.Starred):
                 return ast.copy_location(ast.Call(func=ast.copy_location(ast.Attribute(value=node.args[0], attr="copy", ctx=ast.Load()), node), args=[], keywords=[]), node)
